@@ -22,9 +22,7 @@ def main():
             for n in body:
                 if isinstance(n, (ast.FunctionDef, ast.AsyncFunctionDef)):
                     q = f'{prefix}{n.name}'
-                    t = build_table(n)
-                    if t:
-                        out[f'{rel}::{q}'] = t
+                    out[f'{rel}::{q}'] = build_table(n)      # also functions without locals: the key set = known functions
                 elif isinstance(n, ast.ClassDef):
                     visit(n.body, f'{prefix}{n.name}.')
         visit(tree.body, '')
